@@ -585,6 +585,8 @@ fn text_extra() -> Vec<&'static str> {
         "  \n", "\n\n", "x\r  ", "\r\n\t", "x ", " x", "#", "-", "+", "<%", "{{ x }}", "{%", "\u{b}", "\u{a0}", "\n \n",
         "\r\r", "\n\r", "<", "<<", "%>", "\\VAR{", "\u{c}\n", " \u{2028} ", "x\n", "\n# y", "{# z #}", "{% y %}", "[", "((",
         "é\n ", "  ", "\t \t",
+        // a lone first character of a start delimiter inside a text (the search goes on behind it)
+        "{x", "a{b", "{ }",
     ]
 }
 
@@ -1242,7 +1244,7 @@ fn gen_line(out: &mut impl Write, tier: &str, rng: &mut Rng) {
     let fams: Vec<Fam> = line_families();
     let n = if tier == "thorough" { 80_000 } else { 8_000 };
     let indents = ["", " ", "  ", "\t", " \t "];
-    let trails = ["", " ", "  ", "\t"];
+    let trails = ["", " ", "  ", "\t", "\u{a0}", " \u{3000} "];
     let texts = ["", "a", "  b", "c  ", " ", "x # y", "\u{1}", "z\u{1} ", "q%", "<p>", "\u{3}b", "a\u{3}"];
     let comments = ["", " note", " {{ x", " # if t", "x"];
     for _ in 0..n {
@@ -1583,6 +1585,134 @@ fn gen_kac(out: &mut impl Write, tier: &str, rng: &mut Rng) {
     }
 }
 
+// -- the tokens inside a tag --------------------------------------------------------------------
+
+/// `itok <fam> <v|b|s> <hex s>`: the real tokenizer on `<start delimiter><s>` (variable tag, block
+/// tag, line statement): source text of every token it emits inside the tag (from the spans), and
+/// how the tag ends: `found:<hex of what is left unread>:<d|-|+>` (closing marker), `eof`, `err`.
+fn run_itok(fam: &str, kind: &str, shex: &str) -> String {
+    let f = Fam::dec(fam);
+    let s = unhexs(shex);
+    let start = match kind { "v" => f.vs(), "b" => f.bs(), _ => f.ls() };
+    let src = format!("{}{}", start, s);
+    let head = format!("itok {} {} {}", fam, kind, shex);
+    let syn = if f.name == "default" {
+        SyntaxConfig::default()
+    } else {
+        match f.build() {
+            Ok(x) => x,
+            Err(_) => return format!("{}\ttoks=\tend=badcfg", head),
+        }
+    };
+    let e = match kind { "v" => f.ve().to_string(), "b" => f.be().to_string(), _ => String::new() };
+    let r = guarded(|| {
+        let mut ws = WhitespaceConfig::default();
+        ws.keep_trailing_newline = true;
+        let mut toks: Vec<String> = vec![];
+        let mut inside = false;
+        let mut end = "eof".to_string();
+        for t in tokenize(&src, false, syn, ws) {
+            match t {
+                Ok((tok, span)) => {
+                    let text = &src[span.start_offset as usize..span.end_offset as usize];
+                    if !inside {
+                        match tok {
+                            Token::VariableStart | Token::BlockStart => inside = true,
+                            _ => {
+                                end = "nostart".into();
+                                break;
+                            }
+                        }
+                        continue;
+                    }
+                    match tok {
+                        Token::VariableEnd | Token::BlockEnd => {
+                            let m = if kind != "s" && text.len() == e.len() + 1 { &text[..1] } else { "d" };
+                            end = format!("found:{}:{}", hexs(&src[span.end_offset as usize..]), m);
+                            break;
+                        }
+                        _ => toks.push(hexs(text)),
+                    }
+                }
+                Err(_) => {
+                    end = "err".into();
+                    break;
+                }
+            }
+        }
+        format!("toks={}\tend={}", toks.join(","), end)
+    });
+    format!("{}\t{}", head, r.unwrap_or_else(|_| "toks=\tend=panic".into()))
+}
+
+/// Tag interiors made of token fragments (identifiers, numbers in every notation, string literals,
+/// one and two character operators, brackets, blanks of every kind, stray characters) glued with
+/// and without blanks, so that longest-match decisions are exercised (`1.5.2`, `a.b`, `//=`, `***`,
+/// `1e+`, `0x`, `2.foo`), closed with every marker, under end delimiters that begin with operator
+/// characters, digits and letters, and as line statements.
+fn gen_itok(out: &mut impl Write, tier: &str, rng: &mut Rng) {
+    let thorough = tier == "thorough";
+    let frags: Vec<&str> = vec![
+        "a", "_x1", "if", "b2", "0", "12", "1.5", "1.", "1.e3", "1e5", "1e+5", "1E-2", "0x1F", "0b101", "0o17", "1_000", "1__0", "0x",
+        "1e", "2.foo", "1.5.2", "1_", "0b2", "99999999999999999999999999999999999999999", "18446744073709551616", "'s'", "\"d\"",
+        "'a\\'b'", "'\\u0041'", "'}}'", "'%}'", "''", "'-%>'", "+", "-", "*", "/", "%", ".", ",", ":", "~", "|", "=", ">", "<", "//", "**", "==",
+        "!=", ">=", "<=", "(", ")", "[", "]", "{", "}", "!", "@", "&", "\\", " ", "\t", "\n", "\r\n", "\u{c}", "  ",
+    ];
+    let fams: Vec<Fam> = families()
+        .into_iter()
+        .filter(|f| ["default", "erb", "angle", "brace1", "latex", "dashend", "plusend", "digitend", "letterend", "dashdash", "line", "line2", "lineov"].contains(&f.name.as_str()))
+        .collect();
+    let tails = ["", "x", " \n", "-x"];
+    let mut n = 0usize;
+    let emit_case = |out: &mut dyn Write, f: &Fam, kind: &str, interior: &str, k: usize| {
+        let (e, ok) = match kind { "v" => (f.ve(), true), "b" => (f.be(), true), _ => ("", !f.ls().is_empty()) };
+        if !ok {
+            return;
+        }
+        let s = if kind == "s" {
+            format!("{}{}", interior, ["", "\n", "\r\nx", " \t\ry"][k % 4])
+        } else {
+            format!("{}{}{}{}", interior, ["", "-", "+"][k % 3], e, tails[(k / 3) % 4])
+        };
+        let line = run_itok(&f.enc(), kind, &hexs(&s));
+        let _ = writeln!(out, "{}", line);
+    };
+    for f in &fams {
+        for kind in ["v", "b", "s"] {
+            // every fragment alone and every pair, glued and with a blank between
+            for (i, a) in frags.iter().enumerate() {
+                n += 1;
+                emit_case(out, f, kind, &format!(" {} ", a), n);
+                emit_case(out, f, kind, a, n + 1);
+                for (j, b) in frags.iter().enumerate() {
+                    // quick: a third of the pairs per family (all of them over the families)
+                    if !thorough && (i + j + n) % 3 != 0 {
+                        continue;
+                    }
+                    n += 1;
+                    emit_case(out, f, kind, &format!("{}{}", a, b), n);
+                    if (i + j) % 4 == 0 {
+                        emit_case(out, f, kind, &format!(" {} {}", a, b), n);
+                    }
+                }
+            }
+            // longer random mixtures
+            for _ in 0..(if thorough { 1500 } else { 250 }) {
+                let len = 3 + rng.below(4) as usize;
+                let mut s = String::new();
+                for _ in 0..len {
+                    s.push_str(frags[rng.below(frags.len() as u64) as usize]);
+                    if rng.chance(1, 3) {
+                        s.push(' ');
+                    }
+                }
+                n += 1;
+                emit_case(out, f, kind, &s, n);
+            }
+        }
+    }
+}
+
 // -- entry points -----------------------------------------------------------------------------
 
 fn ctx() -> minijinja::Value {
@@ -1841,6 +1971,9 @@ fn main() {
             if which == "all" || which == "kac" {
                 gen_kac(&mut out, &tier, &mut Rng::new(seed ^ 0x70));
             }
+            if which == "all" || which == "itok" {
+                gen_itok(&mut out, &tier, &mut Rng::new(seed ^ 0x80));
+            }
             if which == "all" || which == "entry" {
                 gen_entry(&mut out, &tier, &mut Rng::new(seed ^ 0x50));
             }
@@ -1862,6 +1995,7 @@ fn main() {
                 "kern" => run_kern(a[1], a[2]),
                 "kac" => run_kac(a[1], a[2], a.get(3).copied().unwrap_or("")),
                 "big" => run_seg(a[1], a[2], a[3]).replacen("seg ", "big ", 1),
+                "itok" => run_itok(a[1], a[2], a[3]),
                 "entry" => run_entry(a[1], a[2], a[3]),
                 "wrap" => run_wrap(a[1], a[2], a[3], a[4]),
                 _ => panic!("bad stream"),
